@@ -63,6 +63,29 @@ Definition lc_judge (c : lc_case) : nat :=
   verdict (obs_eqb (lc_obs c) (srun_obs (sinit (abs (lc_glob c))) (lc_ops c)))
           (obs_eqb (lc_obs c) (LogCtxModel.run_obs core_with (init (lc_glob c)) (lc_ops c))).
 
+(* ---------- sequential, sparse observation ---------- *)
+(* Log(ctx) must be a pure observer; a history probed after every step cannot show a defect
+   that an intermediate Log call repairs (a lazily built logger flushed by Log, say).  These
+   cases are probed only at a few points: lp_probes lists (number of operations executed before
+   the probe, [(context, what it showed)]), in the order the probes were taken; the last entry is
+   the probe of every context after the whole history.  Judged against the same tables. *)
+Record lp_case := { lp_glob : core; lp_ops : list op; lp_probes : list (nat * list (nat * cobs)) }.
+
+Definition probes_ok (tab : list table) (ps : list (nat * list (nat * cobs))) : bool :=
+  forallb (fun kp : nat * list (nat * cobs) =>
+             match nth_error tab (fst kp) with
+             | Some r => forallb (fun co : nat * cobs =>
+                                    match nth_error r (fst co) with
+                                    | Some pr => probe_eqb (expand (snd co)) pr
+                                    | None => false
+                                    end) (snd kp)
+             | None => false
+             end) ps.
+
+Definition lp_judge (c : lp_case) : nat :=
+  verdict (probes_ok (srun_obs (sinit (abs (lp_glob c))) (lp_ops c)) (lp_probes c))
+          (probes_ok (LogCtxModel.run_obs core_with (init (lp_glob c)) (lp_ops c)) (lp_probes c)).
+
 (* non-trivial: a field-adding operation applied to a logger whose level had been set, a
    holder shared by several contexts, or the holder-less default path *)
 Fixpoint nontrivial_from (st : sstate) (lvlset : list nat) (ops : list op) : bool :=
@@ -95,6 +118,8 @@ Fixpoint nontrivial_from (st : sstate) (lvlset : list nat) (ops : list op) : boo
   end.
 Definition lc_nontrivial (c : lc_case) : bool :=
   nontrivial_from (sinit (abs (lc_glob c))) [] (lc_ops c).
+Definition lp_nontrivial (c : lp_case) : bool :=
+  nontrivial_from (sinit (abs (lp_glob c))) [] (lp_ops c).
 
 (* ---------- concurrent ---------- *)
 Fixpoint count (x : N) (l : list N) : nat :=
@@ -117,8 +142,17 @@ Definition final_levels (c0 : core) (progs : list (list cop)) : list level :=
   | ls => ls
   end.
 
+(* a is a subsequence of b (greedy matching decides it) *)
+Fixpoint is_subseq (a b : list N) : bool :=
+  match a, b with
+  | [], _ => true
+  | _ :: _, [] => false
+  | x :: a', y :: b' => if N.eqb x y then is_subseq a' b' else is_subseq a b'
+  end.
+
 (* "no field and no level change lost": the final logger carries the initial fields followed
-   by a permutation of everything added, at the level of a last SetLevel *)
+   by a permutation of everything added - in which the fields of every single goroutine keep
+   the order in which that goroutine added them - at the level of a last SetLevel *)
 Definition final_ok (c0 : core) (progs : list (list cop)) (final : cobs) : bool :=
   let pr := expand final in
   let fs := hd [] (last pr []) in                          (* entry captured at Error level *)
@@ -126,26 +160,70 @@ Definition final_ok (c0 : core) (progs : list (list cop)) (final : cobs) : bool 
   let added := flat_map cop_fields (concat progs) in
   fields_eqb (firstn (length init_fs) fs) init_fs
   && perm_eqb (skipn (length init_fs) fs) added
+  && forallb (fun p => is_subseq (flat_map cop_fields p) (skipn (length init_fs) fs)) progs
   && existsb (fun l => probe_eqb pr (sprobe (fs, l))) (final_levels c0 progs).
 
+(* ---- children created by ChildLogger calls running concurrently with the updates ---- *)
+Definition sub_multiset (a b : list N) : bool := forallb (fun x => count x a <=? count x b) a.
+
+Definition set_levels (ops : list cop) : list level :=
+  flat_map (fun o => match o with CSetLevel l => [l] | _ => [] end) ops.
+
+(* the child created by operation number idx of goroutine t: its logger carries the initial
+   fields, then fields added to the shared logger by WithFields calls (each at most as often as
+   it was added, and at least everything its own goroutine added before), then its own; its
+   level is the initial one or one that some SetLevel asked for *)
+Definition child_ok (c0 : core) (progs : list (list cop)) (ti : nat * nat) (o : cobs) : bool :=
+  match nth_error (nth (fst ti) progs []) (snd ti) with
+  | Some (CChild fs) =>
+      let pr := expand o in
+      let fso := hd [] (last pr []) in
+      let init_fs := cfields c0 in
+      let mid := firstn (length fso - length init_fs - length fs) (skipn (length init_fs) fso) in
+      fields_eqb fso (init_fs ++ mid ++ fs)
+      && sub_multiset mid (flat_map cop_fields (concat progs))
+      && sub_multiset (flat_map cop_fields (firstn (snd ti) (nth (fst ti) progs []))) mid
+      && existsb (fun l => probe_eqb pr (sprobe (fso, l))) (clevel c0 :: set_levels (concat progs))
+  | _ => false
+  end.
+
+Definition children_ok (c0 : core) (progs : list (list cop)) (ch : list ((nat * nat) * cobs)) : bool :=
+  forallb (fun x => child_ok c0 progs (fst x) (snd x)) ch.
+
+Fixpoint list_eqb2 {A B} (eqb : A -> B -> bool) (a : list A) (b : list B) : bool :=
+  match a, b with
+  | [], [] => true
+  | x :: a', y :: b' => eqb x y && list_eqb2 eqb a' b'
+  | _, _ => false
+  end.
+
+Definition child_eqb (a : (nat * nat) * cobs) (b : (nat * nat) * core) : bool :=
+  (fst (fst a) =? fst (fst b)) && (snd (fst a) =? snd (fst b)) && probe_eqb (expand (snd a)) (probe (snd b)).
+
+(* cc_children: (goroutine, position in its program) and the probe of every child, in the order
+   of creation; probed once, after the schedule *)
 Record cc_case := { cc_init : core; cc_progs : list (list cop); cc_sched : list nat;
-                    cc_obs : list cobs; cc_done : bool }.
+                    cc_obs : list cobs; cc_done : bool; cc_children : list ((nat * nat) * cobs) }.
 
 Definition cc_judge (c : cc_case) : nat :=
   let st0 := cinit (cc_init c) (cc_progs c) in
   let model_obs := map probe (crun_obs st0 (cc_sched c)) in
   let model_done := all_returned cop core (fst (crun st0 (cc_sched c))) in
-  verdict (negb (cc_done c) || final_ok (cc_init c) (cc_progs c) (last (cc_obs c) (Irr [])))
-          (list_eqb probe_eqb (map expand (cc_obs c)) model_obs && Bool.eqb (cc_done c) model_done).
+  verdict ((negb (cc_done c) || final_ok (cc_init c) (cc_progs c) (last (cc_obs c) (Irr [])))
+           && children_ok (cc_init c) (cc_progs c) (cc_children c))
+          (list_eqb probe_eqb (map expand (cc_obs c)) model_obs && Bool.eqb (cc_done c) model_done
+           && list_eqb2 child_eqb (cc_children c) (crun_children st0 (cc_sched c))).
 
 (* some CAS failed / some goroutine was pre-empted between its Load and its update *)
 Definition cc_nontrivial (c : cc_case) : bool :=
   let st0 := cinit (cc_init c) (cc_progs c) in
-  negb (Nat.eqb (length (cc_sched c)) (2 * length (concat (cc_progs c))))
+  negb (Nat.eqb (length (cc_sched c)) (length (flat_map cprog (concat (cc_progs c)))))
   || negb (list_eqb (fun a b => Nat.eqb a b) (cc_sched c)
-             (flat_map (fun t => repeat t (2 * length (nth t (cc_progs c) [])))
+             (flat_map (fun t => repeat t (length (flat_map cprog (nth t (cc_progs c) []))))
                        (seq 0 (length (cc_progs c))))).
 
-Record sc_case := { sc_init : core; sc_progs : list (list cop); sc_final : cobs }.
+Record sc_case := { sc_init : core; sc_progs : list (list cop); sc_final : cobs;
+                    sc_children : list ((nat * nat) * cobs) }.
 Definition sc_judge (c : sc_case) : nat :=
-  verdict (final_ok (sc_init c) (sc_progs c) (sc_final c)) true.
+  verdict (final_ok (sc_init c) (sc_progs c) (sc_final c)
+           && children_ok (sc_init c) (sc_progs c) (sc_children c)) true.
